@@ -188,6 +188,7 @@ func runC10(r *engine.Run) {
 	r.Rule = "E1 + E2 (+ E3 for schedules, reported by the C10 schedule explorer into the same evidence). (a) aliasing: frames of every kind decoded from a sub-slice with spare capacity inside a guarded arena; the arena is overwritten afterwards and the frame's deep print must not change, also after Decode*ToMACCommands / Decrypt*; encoded output overwritten must not change the frame or a second encoding. (b) out-of-slice writes: EncryptFRMPayload / EncryptFOpts for every length 0..64 x spare capacity {0,1,15,16,40} x 2 placements, guard bytes before and after the slice must be intact; Validate*/Marshal* leave the frame's deep print unchanged. (c) reuse histories: for every decodable type (29 MAC payloads, ChMask, CFList and both payload kinds, join/rejoin payloads, MACCommand, FHDR, MACPayload, PHYPayload, 35 application-layer payloads, the four Commands lists x direction) every sequence of <= 3 decodes over a 5-6 string alphabet; whenever the last decode succeeds the value must equal a fresh value decoded from the last string alone. (d) band instances: for every band name x repeater x dwell, explicit-state BFS over the mutators of instance A (C15 alphabet, depth 3) with the hook snapshot of an untouched instance B compared with a fresh instance in every state."
 	frameHistory(r, 2)
 	cryptoHistory(r)
+	bandInstanceHistory(r)
 	r.Assume("deep print = all exported and unexported fields, slices by content, pointers by pointee; two values with the same deep print are indistinguishable to every method")
 
 	// ---- (a) aliasing
@@ -501,6 +502,7 @@ func runC10(r *engine.Run) {
 			New:   func() interface{} { return &pair{newBand(cfg), newBand(cfg)} },
 			Ops:   xops,
 			Snap:  func(obj interface{}) string { return chanSnap(snapOf(obj.(*pair).a)) },
+			Warm:  func(obj interface{}) { bandWarm(obj.(*pair).a); bandWarm(obj.(*pair).b) },
 			Depth: 3,
 			Check: func(c *engine.Case, obj interface{}, path []int, last string) {
 				c.NonTrivial()
